@@ -185,6 +185,28 @@ fn inject(case: &Case, fe: usize, buffered: Option<usize>, pol: Policy, clean: &
     }
 }
 
+fn interrupted_flush(case: &Case, fe: usize, k: u64, clean: &[u8], ev: &mut Ev) {
+    let sink = Sink::new(Policy::FlushInterrupted(k));
+    ev.eval(None);
+    ev.count("interrupted-flush-sessions");
+    let res = guard(|| drive(case, fe, sink.clone(), &sink));
+    let descr = || J::obj(vec![("case", case.describe()), ("policy", J::s(format!("the first {} flush calls return Interrupted", k))), ("front_end", J::U(fe as u64))]);
+    match res {
+        Err(p) => ev.violate("io-panic", format!("builder panicked when flush returned Interrupted: {}", p), descr()),
+        Ok(results) => {
+            let finished_ok = results.iter().all(|r| *r == CallResult::Ok);
+            let flushed = sink.0.borrow().flushed_after_last_write;
+            let complete = sink.data().len() == clean.len();
+            if finished_ok && !(flushed && complete) {
+                ev.violate("finished-but-incomplete", format!("the build was reported finished although no flush ever succeeded (the first {} flush calls returned Interrupted; flushed-after-last-write={}, {} of {} bytes)", k, flushed, sink.data().len(), clean.len()), descr());
+            }
+            if !finished_ok && !matches!(results.last(), Some(CallResult::Io)) {
+                ev.violate("fault-wrong-error", format!("an interrupted flush surfaced as {:?}", results.last()), descr());
+            }
+        }
+    }
+}
+
 pub fn inputs(ctx: &Ctx) -> Vec<Case> {
     let mut v = crate::checks::c07::small_cases(ctx, ctx.tier.pick(150, 600));
     // force all-zero values for every 3rd so set front ends apply
@@ -246,6 +268,11 @@ pub fn run(ctx: &Ctx) -> i32 {
                 for k in [ErrorKind::Other, ErrorKind::BrokenPipe].iter() {
                     inject(case, fe, None, Policy::FailFlush(*k), &clean, d.as_ref(), ev);
                 }
+                // a flush that keeps returning Interrupted: whether the builder retries or gives up is its choice, but it
+                // must not report the build as finished unless a flush finally succeeded
+                for k in [1u64, 3, 50].iter() {
+                    interrupted_flush(case, fe, *k, &clean, ev);
+                }
                 // through a BufWriter: the inner sink sees few, large writes; the fault surfaces when the buffer drains
                 for cap in [16usize, 64, 8192].iter() {
                     let probe = Sink::new(Policy::Full);
@@ -274,7 +301,7 @@ pub fn run(ctx: &Ctx) -> i32 {
         ev,
         Spec {
             level: "fault_enumeration",
-            rule: "one evaluation = one complete builder session (new, inserts, into_inner) on a sink that fails exactly once: at write call i (error return of several kinds or a zero-length accept) or at the final flush; the sink log records which builder call was in progress; that call must return Err(Error::Io) - not Ok, not another error, not a panic - and no call after the header may have been reported Ok beyond it; sessions whose fault index lies past the last write must finish with every byte delivered and flushed; fault positions: EVERY write call index of the clean run (quick: <=400 evenly spaced when there are more) for each input x front ends {raw insert, MapBuilder, SetBuilder, raw add with a type} x {single inserts, one extend_iter / extend_stream call} x {into_inner, finish}; the same through BufWriter(16|64|8192) where the fault surfaces when the buffer drains; non-trivial = every session; distinct = (input, front end, fault position/kind), distinct by construction",
+            rule: "one evaluation = one complete builder session (new, inserts, into_inner) on a sink that fails exactly once: at write call i (error return of several kinds or a zero-length accept) or at the final flush (also: a flush that returns Interrupted 1, 3 or 50 times - then 'finished' requires that some flush finally succeeded); the sink log records which builder call was in progress; that call must return Err(Error::Io) - not Ok, not another error, not a panic - and no call after the header may have been reported Ok beyond it; sessions whose fault index lies past the last write must finish with every byte delivered and flushed; fault positions: EVERY write call index of the clean run (quick: <=400 evenly spaced when there are more) for each input x front ends {raw insert, MapBuilder, SetBuilder, raw add with a type} x {single inserts, one extend_iter / extend_stream call} x {into_inner, finish}; the same through BufWriter(16|64|8192) where the fault surfaces when the buffer drains; non-trivial = every session; distinct = (input, front end, fault position/kind), distinct by construction",
             assumptions: vec!["ErrorKind::Interrupted is a retry request, not a failure (C07 covers it)".into(), "behaviour of a builder AFTER it returned an I/O error is not judged".into()],
             floors: vec![
                 ("site:header", 10),
